@@ -7,7 +7,7 @@ from sa.loader import Program
 from sa.__main__ import run_property, PROPS
 from sa.report import load_known
 
-srcs = sorted(glob.glob("/verif/seeded/refactors/g*_r*.diff") + glob.glob("/verif/seeded/refactors2/g*_r*.diff") + glob.glob("/verif/seeded/refactors3/g*_r*.diff")) if len(sys.argv) < 2 else sorted(glob.glob(sys.argv[1]))
+srcs = sorted(glob.glob("/verif/seeded/refactors*/g*_r*.diff")) if len(sys.argv) < 2 else sorted(glob.glob(sys.argv[1]))
 WT = "/tmp/refactor_eval_wt"
 subprocess.run(["git", "-C", "/repo", "worktree", "remove", "--force", WT], capture_output=True)
 subprocess.check_call(["git", "-C", "/repo", "worktree", "add", "-q", "--detach", WT, "HEAD"])
